@@ -7,22 +7,32 @@ From PG Require Import Base.ListSet Graph.MGraph Graph.MSep Graph.MSepDec C19.Mo
   C19.Bounded4_6 C19.Bounded4_7 C19.Bounded4_8 C19.Bounded4_9 C19.Bounded4_10.
 Import ListNotations.
 
-Lemma check_all_groups : forallb (fun b => forallb (fun d => check_graph_fast 4 (mk4 b d)) dsets4) bsets4 = true.
+Lemma bsets4_In_chunk b : In b bsets4 -> exists k, k < 11 /\ In b (bchunk4 k).
 Proof.
-  rewrite bsets4_chunks. rewrite !forallb_app.
-  pose proof check_bgroup_0 as H0. pose proof check_bgroup_1 as H1. pose proof check_bgroup_2 as H2.
-  pose proof check_bgroup_3 as H3. pose proof check_bgroup_4 as H4. pose proof check_bgroup_5 as H5.
-  pose proof check_bgroup_6 as H6. pose proof check_bgroup_7 as H7. pose proof check_bgroup_8 as H8.
-  pose proof check_bgroup_9 as H9. pose proof check_bgroup_10 as H10.
-  unfold check_bgroup in *. rewrite H0, H1, H2, H3, H4, H5, H6, H7, H8, H9, H10. reflexivity.
+  rewrite bsets4_chunks. intros H.
+  repeat (apply in_app_or in H; destruct H as [H|H];
+          [match type of H with In _ (bchunk4 ?k) => exists k; split; [lia|exact H] end|]).
+  exists 10. split; [lia|exact H].
+Qed.
+
+Lemma check_group_all k : k < 11 -> check_bgroup k = true.
+Proof.
+  intros Hk.
+  destruct k as [|k]; [exact check_bgroup_0|]. destruct k as [|k]; [exact check_bgroup_1|].
+  destruct k as [|k]; [exact check_bgroup_2|]. destruct k as [|k]; [exact check_bgroup_3|].
+  destruct k as [|k]; [exact check_bgroup_4|]. destruct k as [|k]; [exact check_bgroup_5|].
+  destruct k as [|k]; [exact check_bgroup_6|]. destruct k as [|k]; [exact check_bgroup_7|].
+  destruct k as [|k]; [exact check_bgroup_8|]. destruct k as [|k]; [exact check_bgroup_9|].
+  destruct k as [|k]; [exact check_bgroup_10|]. lia.
 Qed.
 
 Lemma check_cyc4 d b : In d (subl (ord_pairs 4)) -> In b (subl (unord_pairs 4)) -> length b <= 2 ->
   check_graph 4 (mk4 b d) = true.
 Proof.
   intros Hd Hb Hl. rewrite <- check_graph_fast_eq by reflexivity.
-  pose proof check_all_groups as H. rewrite forallb_forall in H. specialize (H b (bsets4_In b Hb Hl)).
-  rewrite forallb_forall in H. apply H. exact Hd.
+  destruct (bsets4_In_chunk b (bsets4_In b Hb Hl)) as [k [Hk Hin]].
+  pose proof (check_group_all k Hk) as H. unfold check_bgroup in H.
+  rewrite forallb_forall in H. specialize (H b Hin). rewrite forallb_forall in H. apply H. exact Hd.
 Qed.
 
 Theorem sigma_equiv_bounded_4_le2_bidirected_proof : forall d b X Y Z,
@@ -86,7 +96,7 @@ Proof.
   exists (MkG (seq 0 n) d b [] []). split; [apply cyc_graphs_In; auto|]. simpl. auto.
 Qed.
 
-Lemma graph_counts : length (subl (ord_pairs 4)) = 4096 /\ length bsets4 = 22.
+Lemma graph_counts : Nat.eqb (length (subl (ord_pairs 4))) (64 * 64) = true /\ length bsets4 = 22.
 Proof. vm_compute. auto. Qed.
 
 (* non-trivial instance: 0 <-> 1 (2-cycle) -> 2 <-> 3 (2-cycle): the design's witness *)
